@@ -107,7 +107,7 @@ def flatten(tr, data: bytes, names: list):
     return hdr, cmds
 
 
-def run_config(ctx, tr, build, scn, k, via, shared=None):
+def run_config(ctx, tr, build, scn, k, via, shared=None, sink=None):
     # odd k: ONE artifacts folder for the whole run, children regenerated under the SAME file names (what an incremental build
     # does); even k: a fresh folder and names that carry k
     d = shared if (shared is not None and k % 2) else ctx.tmp("c19")
@@ -170,6 +170,8 @@ def run_config(ctx, tr, build, scn, k, via, shared=None):
     tr.ev("Created", ok=out is not None, err=err)
     if out is None:
         return
+    if sink is not None:   # other checks (G07) look at the created envelope too
+        sink(out, scn, via)
     hdr, cmds = flatten(tr, out, names)
     tr.events[-2].update(hdr)  # the Begin event carries the header
     tr.ev("Header")
